@@ -95,17 +95,23 @@ Theorem C02_object_at : forall (R : resolver) allow file pos id gen v,
 Proof. exact obj_at_object. Qed.
 Print Assumptions C02_object_at.
 
+(** locate_xref_offset reads the offset the file ends with (last occurrence of the keyword, the number after it) *)
+Theorem C02_locate_startxref : forall file q, startxref_at file q -> locate_xref_offset file = Ok q.
+Proof. exact locate_xref_startxref. Qed.
+Print Assumptions C02_locate_startxref.
+
 (** C02_resolve_latest (DESIGN §9 C02) for classic-table files: open (header at 0, startxref, /Prev walk) and
     resolve.  For every well-formed history written as a chain of classic sections, every number below /Size
     resolves to the object stored by the most recent update that mentions it, to FreeObject when that update
     freed it, to NullRef when no update mentions it; the trailer is the newest one.  No parser oracle is left;
-    the remaining premises describe the file: header at 0, the value of startxref as located (C17_locate_xref /
-    mode xr_locate), what stands at the positions the sections and the newest entries name. *)
+    the remaining premises describe the file: header at 0; the file ends with `startxref`, the offset in decimal
+    and a tail without the letter `s` (startxref_at, e.g. "\n%%EOF\n"); what stands at the positions the sections
+    and the newest entries name. *)
 Theorem C02_resolve_latest : forall (R : resolver) (tid : dict -> N) allow (member : bytes -> prim -> N -> res prim)
     file (h : history) secss q0 secs0 d0 older size,
   Forall2 represents secss h -> wf_history h ->
   map snd ((q0, secs0) :: older) = rev secss ->
-  starts_with xr_header file = true -> locate_xref_offset file = Ok q0 ->
+  starts_with xr_header file = true -> startxref_at file q0 ->
   section_at file q0 secs0 d0 -> t_size (tinfo_of tid d0) = Some size -> size <= xr_max_id ->
   chain_at tid file 0 (t_prev (tinfo_of tid d0)) older -> NoDup (map fst older) ->
   lenN file < usize_max ->
@@ -114,7 +120,7 @@ Theorem C02_resolve_latest : forall (R : resolver) (tid : dict -> N) allow (memb
   exists t, load (xref_at_tables R tid) file = Ok (0, t, tid d0) /\
     forall n fuel, n < size ->
       stored file 0 n (latest h n) (resolve_ref prim (obj_at_parse R allow F_ANY) member (S fuel) file 0 t n).
-Proof. exact resolve_latest_tables. Qed.
+Proof. exact resolve_latest_tables_file. Qed.
 Print Assumptions C02_resolve_latest.
 
 (** Cross-reference streams: the section reader inverts the §7.5.8 printer for every /W with fields of
